@@ -30,6 +30,9 @@ CHECKS = {
  "C04": dict(level="model_checking", technique="explicit-state BFS over queue operations on the real hh queue vs a list model (every state validated by draining a reopened copy) + stateless preemption/delay-bounded schedule exploration of appenders x consumer x Close on the real queue under a controlled scheduler (synctest bubble, sync shim)",
    text="(a) BFS (depth 5, 7 thorough) over Append at sizes around the segment limit, a 12-segment burst, Peek, Consume, SetMaxSegmentSize up/down, Close+Open, purge with and without aged files on the real queue with 64-byte segments; after every transition Empty() <=> nothing pending and a reopened copy drains to exactly the accepted, un-consumed blocks in order. (c) k in {2,3} appenders (+consumer) racing Close with preemption bound 2 (3 thorough), and 11-12 appenders (the buffered path above ten writers in flight) with delay bound 1 (2 thorough), every sync operation of services/hh a scheduling point: after quiescence (and, without Close, while the queue is still open) every append that returned nil is in the queue exactly once, preloaded blocks keep their order, the consumer saw the oldest block. The crash-point part (b) of DESIGN is not built yet.",
    note="tmpfs files (fsync is a no-op: crash clauses are not decided here); 64-byte segments stand for 10 MB; data races outside a cooperative scheduler; harness built with go1.26.8 testing/synctest.", ref="§6 C04"),
+ "C02": dict(level="model_checking", technique="explicit-state BFS over shard operations on a real tsdb.Store/tsm1 engine (state = model content + physical layout), every transition followed by exhaustive reads vs a last-write-wins reference model",
+   text="BFS over 17 operations (write batches of all five field types with duplicate, out-of-order, extreme and identical timestamps, a 16-point duplicate/out-of-order batch, a type-conflicting point, snapshot, full/optimize/level/planned compactions through the real strategies and planner, two range deletes, reopen) to depth 4 (5 thorough; tsi1 as well in thorough), plus an 8-operation core alphabet to depth 6 (7 thorough), on a real store with WAL and 2 points per block. After every transition each measurement field is read over 10 ranges/directions through Shard.CreateIterator and each series field through the storage cursor path and compared with the model; a conflicting point must be reported as a partial write dropping exactly it.",
+   note="2 points per block stand for 1000; runs inside a synctest bubble so background loops are inert; a batch that gives a brand-new field two types is outside the statement and skipped.", ref="§6 C02"),
 }
 NA_REASON = "check not built yet in this round (planned in DESIGN.md §6); nothing is claimed for it"
 m = {
